@@ -359,7 +359,17 @@ func runHybridHistory(r *rand.Rand, o hybridOpts, t *Trace) *Case {
 				}
 			}
 			fu, _ := comet.NewFusion(fkinds[fk], cfg)
-			s := h.NewSearch().WithK(k).WithThreshold(thr).WithScoreAggregation(aggs[aggz]).WithCutoff(cutoff).WithNProbes(np).WithFusion(fu)
+			s := h.NewSearch().WithK(k).WithThreshold(thr).WithScoreAggregation(aggs[aggz]).WithCutoff(cutoff).WithNProbes(np)
+			defaultCfg := cfg.VectorWeight == 1 && cfg.TextWeight == 1 && cfg.K == 60
+			switch {
+			case defaultCfg && r.Intn(3) == 0:
+				s = s.WithFusionKind(fkinds[fk]) // same strategy through the by-kind option (default configuration)
+				t.Stat("hybrid.with_fusion_kind")
+			case defaultCfg && fk == 0 && r.Intn(2) == 0:
+				t.Stat("hybrid.default_fusion") // no fusion option at all: weighted sum 1/1 is the default
+			default:
+				s = s.WithFusion(fu)
+			}
 			if len(vq) > 0 {
 				s = s.WithVector(cloneVec(vq))
 			}
